@@ -1,4 +1,9 @@
-# DESIGN — machine-checked proof (Coq 8.16.1) for 20 semantic properties of OpenFermion
+#!/usr/bin/env python3
+"""Writes /verif/DESIGN.md: static text below + tables generated from known_findings.json and seeded/*/meta.json."""
+import json, os, glob, subprocess
+V = os.path.dirname(os.path.dirname(os.path.abspath(__file__)))
+
+HEAD = r'''# DESIGN — machine-checked proof (Coq 8.16.1) for 20 semantic properties of OpenFermion
 
 This document was written before the code (commit history of /verif keeps that first version) and has
 been revised to describe the framework *as built*.  Section 1 explains the approach, section 2 the
@@ -197,73 +202,9 @@ the `Print Assumptions` summary.
 | C20 | save/load state machine: no overwrite (step and histories), load-after-save | - | histories vs model, print/parse | MolecularData round trips (HDF5) |
 
 ---------------------------------------------------------------------------------------------
+'''
 
-## 4. Genuine defects found in quantumlib/OpenFermion
-
-Each was exhibited by a check on the unchanged tree, reproduced against the real code, triaged
-(defect vs false alarm), and either repaired by one minimal unguarded `fix:` commit in /repo (the
-unedited test suite passes with all of them: 2118 passed, identical to the baseline) or recorded as an
-open finding when an existing test pins the faulty behaviour.
-
-| id | property | status | commit | what |
-|---|---|---|---|---|
-| D1 | C01 | fixed | 7608ea4a | property=C01 7608ea4a SymbolicOperator.__iadd__/__isub__ with an aliased operand (a -= a) raised RuntimeError: dictionary changed size during iteration |
-| D2 | C02 | fixed | 4016536a | property=C02 4016536a SymbolicOperator.isclose multiplied its tolerance in place for every shared term (12 shared terms of size 10 made operators differing by 1.0 in one coefficient compare equal) |
-| D3 | C03 | fixed | 03160272 | property=C03 03160272 normal_ordered_quad_term dropped hbar in its recursive call (normal_ordered(QuadOperator('p0 p0 q0 q0'), hbar=2) gave constant -4 instead of -8) |
-| D4 | C05 | fixed | fc65905d | property=C05 fc65905d bravyi_kitaev(InteractionOperator, n_qubits > tensor size) raised IndexError (loops over tensor indices ran to n_qubits) |
-| D5 | C06 | fixed | 0830d2b4 | property=C06 0830d2b4 get_sparse_operator(PolynomialTensor/DiagonalCoulombHamiltonian) sized the matrix by the highest orbital with a non-zero coefficient and ignored n_qubits |
-| D6 | C07 | open | - | trivially_double_commutes_dual_basis(a, b, c) returns True although [a,[b,c]] != 0 when b is a number operator p^ p whose mode (counted twice) occurs in c and the mode sets of b and c differ, e.g. a=b=0^ 0, c=0^ 1 ([a,[b,c]] = 0^ 1) |
-| D7 | C08 | open | - | PolynomialTensor a - b stores +b[key] instead of -b[key] for every key present only in the subtrahend b (e.g. key (0,0,1,1) only in b), so the result does not denote the difference of the denoted operators |
-| D8 | C09 | fixed | 6543667e | property=C09 6543667e BinaryPolynomial += numpy.int64(1) was ignored and p += p (aliased operand) left terms behind |
-| D9 | C10 | fixed | 8af77b75 | property=C10 8af77b75 expectation_computational_basis_state read a sparse-vector state little-endian without leading zeros (/0001> as orbital 0) and subtracted the j^ i^ j i coefficient when only orbital i was occupied |
-| D10 | C10 | fixed | 3ad414d0 | property=C10 3ad414d0 get_number_preserving_sparse_operator raised IndexError when a term maps a determinant beyond the last basis determinant of a truncated space |
-| D11 | C12 | fixed | 8fc4eea4 | property=C12 8fc4eea4 jw_get_gaussian_state with the default occupation returned an excited state (energy 2 instead of -3 for diag(3,-1,2,-2)) because the orbital energies of the spin-block path are not sorted |
-| D12 | C13 | fixed | 2de63a3f | property=C13 2de63a3f jellium_model(plane_wave=False, include_constant=True) added the Madelung constant twice |
-| D13 | C20 | fixed | c56d5188 | property=C20 c56d5188 plain-text save/load of the zero operator returned the ladder term on index 0 (FermionOperator('0')) or raised (QubitOperator); an operator whose terms are all negligible printed '' and loaded as the identity |
-| D14 | C14 | fixed | 1ed287bf | property=C14 1ed287bf bogoliubov_transform applied the spin-block shortcut to N x 2N matrices and raised ValueError('Bad shape for transformation_matrix') for an admissible Bogoliubov matrix (identity on modes 0,1, pairing rotation on modes 2,3) |
-| D15 | C12 | fixed | 0dc094b3 | property=C12 0dc094b3 jw_get_gaussian_state for excited occupations of BCS-type Hamiltonians (M = diag(1,0,0.5), Delta[1,2] = 0.5, occupied [0]) returned a non-eigenstate; caused by the rank-deficient left block in fermionic_gaussian_decomposition (same repair as D23) |
-| D16 | C20 | fixed | 3a839edc | property=C20 3a839edc a MolecularData loaded from a file without general calculations had no general_calculations attribute, so the second save of a save-load cycle raised AttributeError |
-| D17 | C09 | fixed | bc95bb9c | property=C09 bc95bb9c parity_code(1) raised ValueError (decoder matrix construction only valid for n_modes >= 2) |
-| D18 | C09 | fixed | 987a373c | property=C09 987a373c weight_two_segment_code decoded the occupation vector (0,0,0,1,1) as (1,1,1,0,0): the switch polynomial listed w0 w1 w2 twice |
-| D19 | C13 | fixed | b93c1533 | property=C13 b93c1533 general_hubbard.number_operator with particle_hole_symmetry returned c*n - 1/2 instead of c*(n - 1/2), so FermiHubbardModel(particle_hole_symmetry=True) differed from the documented U (n_i - 1/2)(n_j - 1/2) and from fermi_hubbard |
-| D20 | C06 | fixed | efd6f52b | property=C06 efd6f52b get_linear_qubit_operator_diagonal raised a casting error for complex coefficients on Z-only terms |
-| D21 | C08 | fixed | 0e22d33c | property=C08 0e22d33c PolynomialTensor a += b stored b's own array for a key missing in a, so a later a *= 2 changed b |
-| D22 | C17 | fixed | 05a14e2f | property=C17 05a14e2f map_one_pdm_to_one_hole_dm / map_one_hole_dm_to_one_pdm returned 1 - D instead of 1 - D^T, wrong for the RDMs of complex-valued states under the documented index convention |
-| D23 | C11 | fixed | 0dc094b3 | property=C11 0dc094b3 fermionic_gaussian_decomposition returned factors that do not multiply back to the input when the left N x N block is rank deficient by two or more (e.g. W = (0 / U), U a non-diagonal unitary): no operation was generated and only the diagonal of the remaining unitary right block was reported |
-
-Open findings are reported as `KNOWN-FINDING:` lines by the C07 / C08 checks, only inside their region.
-
----------------------------------------------------------------------------------------------
-
-## 5. Seeded changes: which check catches which
-
-Fresh sub-agents were given only the text of one property and a scratch worktree and asked for a
-change that breaks it, passes the existing tests, and needs something specific to manifest.  Each kept
-change was confirmed here: the demonstration fails on the changed tree and passes on the original,
-the baseline suite still passes in the changed tree, and the patch was applied to /repo, the check run,
-and the patch reverted.  Checks were strengthened where a seed was missed at first (noted below).
-
-| seed | property | what it needs to manifest | detected by (`./check` quick) |
-|---|---|---|---|
-| C01_mul_constant_operand_alias | C01 | An out-of-place product `a * c` (any SymbolicOperator class: fermion/qubit/boson/quad/Ising) whose RIGHT operand is an operator consisting only of the empty (identity) term, e.g. QubitOperator((), 4.0): the result is correct but the left operand `a` is silently rescaled by c's constant (invisible when the constant is 1). With c = identity the result `a * identity` shares its terms dict with `a`, s | yes |
-| C02_isclose_tol_dropped_one_side | C02 | SymbolicOperator.isclose called with a non-default tol, where the `other` argument (right-hand side) contains a term absent from self whose /coefficient/ lies between the custom tol and the default EQ_TOLERANCE (1e-8); the result is then wrong and differs from other.isclose(self, tol). Plain == (default tol) is unaffected, and operators must be built via .terms for sub-1e-8 coefficients because __ | yes |
-| C03_quad_hbar_recursion | C03 | normal_ordered on a QuadOperator with hbar != 1 whose term needs NESTED contractions, i.e. at least two p..q same-mode contractions inside one term (e.g. 'p0 p0 q0 q0', 'p0 q0 p0 q0', 'p1 p0 q0 q1'); the recursive call no longer forwards hbar, so second-level and deeper contraction terms are scaled with hbar=1. hbar=1, fermion/boson inputs, and terms needing only top-level contractions (e.g. 'p0 q | yes |
-| C04_iop_diagonal_exchange_fold | C04 | jordan_wigner on a Hermitian InteractionOperator whose two-body tensor has the index coincidence p==s, q==r with unsymmetrised storage, i.e. two_body[p,q,q,p] != two_body[q,p,p,q] for some p<q (e.g. a density-density term U*n_p*n_q stored once as two_body[p,q,q,p]). Tensors with the h[p,q,r,s]==h[q,p,s,r] exchange symmetry (molecular Hamiltonians, random_interaction_operator) and tensors produced  | yes |
-| C05_srl_p3_union | C05 | An InteractionOperator passed to bravyi_kitaev with a nonzero a_i^ a_j coupling (one-body, or inside a number-excitation / double-excitation term) between two distinct ODD modes i, j whose remainder sets R(i), R(j) overlap; the smallest such modes are 9, 11, 13 (R(9)={7}, R(11)={7}, R(13)={11,7}), so at least 12 modes are needed (Seeley-Richard-Love cases 7, 8 and 10). For all mode indices < 8 (ev | yes |
-| C07_dual_basis_containment | C07 | trivially_commutes_dual_basis(term_a, term_b) with term_a a single-mode number operator p^ p and term_b a hopping term (p^ q or q^ p, q != p) touching that same mode: the 'same modes' rule now tests only that term_a's modes are contained in term_b's, so it answers True although [p^ p, p^ q] = p^ q is non-zero. The reversed argument order, two-mode number operators, and every pair in the existing t | yes |
-| C09_code_concat_encoder_clipped | C09 | A concatenation outer * inner of two BinaryCodes in which BOTH encoders are non-trivial linear maps, so that some entry of the integer matrix product inner.encoder @ outer.encoder is >= 2 (e.g. parity_code(n) * parity_code(n), parity_code(4) * bravyi_kitaev_code(4), bravyi_kitaev_code(5) * parity_code(5), parity_code(3) * weight_one_segment_code()). The concatenated encoder is clipped to 0/1 (logi | yes |
-| C13_general_hubbard_onsite_multiband | C13 | A FermiHubbardModel on a lattice with n_dofs >= 2 and an interaction parameter on the 'onsite' edge type between two DIFFERENT degrees of freedom (e.g. ('onsite', (0, 1), U, spin_pairs)). The hoisted 'same_spatial_orbital' flag now treats every onsite edge as the same spatial orbital, so only the single term n_{i,a,up} n_{i,b,down} is emitted (spinful; SAME/ALL/DIFF all collapse to it, breaking SU | yes |
-| C18_padding_sqrt_bound | C18 | _get_padding now only tries divisors up to sqrt(trial_size), so a prime list length L that is itself <= num_lists-2 is accepted as padding; in _asynchronous_iter lists k and k+L then always advance in lock-step and most of their cross combinations are never scheduled. It needs >= 7 iterator lists whose longest length is a prime L <= num_lists-2 while still on the non-small-list path (log2(K+1)*L^2 | yes |
-| C19_qr2_grid_capped | C19 | QR2/QI2 called with one register length that is small and not a power of two next to a much longer one (e.g. L1=3, L2=100), so that the cheapest block size 2**k exceeds the short register's length (ceil(L/2**k)=1); the capped search k <= floor(log2 L) never tries that block size and returns a cost above the brute-force minimum over k1,k2 in 1..16. Comparable-size registers, as in the library's tes | yes |
-| C20_file_path_rstrip | C20 | A file name whose stem ends in one of the characters '.', 'd', 'a', 't' (e.g. 'theta', 'h2_data', 'result'): get_file_path now uses str.rstrip('.data'), which strips a character set rather than the suffix, so such names are truncated ('theta' -> 'the.data'). Save and load with the same name stay self-consistent; it only shows when two distinct names collapse onto the same file (spurious 'file alre | yes |
-
-Strengthening done because of seeds: C13 gained the multi-band `FermiHubbardModel` specification (the
-seed only manifests with two bands and an on-site inter-orbital interaction; this also exposed finding
-D19); C18 gained the `_asynchronous_iter` all-pairs check and the `_get_padding` specification (the seed
-needs 8 bins of prime length 5, outside the enumerated symmetric-variant range); C05 quick now covers
-`_seeley_richard_love` for all (i, j) up to 16 qubits (the seed needs modes 9 / 11 / 13); C20 maps any
-unexpected load failure to a model mismatch instead of crashing.
-
+LIMITS = r'''
 ---------------------------------------------------------------------------------------------
 
 ## 6. Limits, and deviations from the first version of this design
@@ -321,3 +262,60 @@ unexpected load failure to a model mismatch instead of crashing.
   save/load state machine, the last step of `taper_off_qubits`.
 * libm `cos` / `sin` / `exp` in the harness when angles returned by the implementation are turned into
   matrix entries (C11, C16); a rational enclosure of pi (C19).
+'''
+
+def findings_table():
+    d = json.load(open(os.path.join(V, 'known_findings.json')))['findings']
+    def key(f): return int(f['id'][1:])
+    rows = ['| id | property | status | commit | what |', '|---|---|---|---|---|']
+    for f in sorted(d, key=key):
+        what = f['what']
+        for pre in ('fixed: ',): what = what.replace(pre, '')
+        rows.append('| %s | %s | %s | %s | %s |' % (f['id'], f['property'], f['status'], f.get('commit', '-') or '-', what.replace('|', '/')))
+    return '\n'.join(rows)
+
+def seeds_table():
+    rows = ['| seed | property | what it needs to manifest | detected by (`./check` quick) |', '|---|---|---|---|']
+    for p in sorted(glob.glob(os.path.join(V, 'seeded', '*', 'meta.json'))):
+        m = json.load(open(p)); name = os.path.basename(os.path.dirname(p))
+        det = m.get('detected_by', 'yes' if m.get('detected') else 'NO')
+        rows.append('| %s | %s | %s | %s |' % (name, m.get('property'), str(m.get('what_it_needs_to_manifest', '')).replace('|', '/').replace('\n', ' ')[:400], det))
+    return '\n'.join(rows)
+
+def main():
+    txt = HEAD
+    txt += '''
+## 4. Genuine defects found in quantumlib/OpenFermion
+
+Each was exhibited by a check on the unchanged tree, reproduced against the real code, triaged
+(defect vs false alarm), and either repaired by one minimal unguarded `fix:` commit in /repo (the
+unedited test suite passes with all of them: 2118 passed, identical to the baseline) or recorded as an
+open finding when an existing test pins the faulty behaviour.
+
+''' + findings_table() + '''
+
+Open findings are reported as `KNOWN-FINDING:` lines by the C07 / C08 checks, only inside their region.
+
+---------------------------------------------------------------------------------------------
+
+## 5. Seeded changes: which check catches which
+
+Fresh sub-agents were given only the text of one property and a scratch worktree and asked for a
+change that breaks it, passes the existing tests, and needs something specific to manifest.  Each kept
+change was confirmed here: the demonstration fails on the changed tree and passes on the original,
+the baseline suite still passes in the changed tree, and the patch was applied to /repo, the check run,
+and the patch reverted.  Checks were strengthened where a seed was missed at first (noted below).
+
+''' + seeds_table() + '''
+
+Strengthening done because of seeds: C13 gained the multi-band `FermiHubbardModel` specification (the
+seed only manifests with two bands and an on-site inter-orbital interaction; this also exposed finding
+D19); C18 gained the `_asynchronous_iter` all-pairs check and the `_get_padding` specification (the seed
+needs 8 bins of prime length 5, outside the enumerated symmetric-variant range); C05 quick now covers
+`_seeley_richard_love` for all (i, j) up to 16 qubits (the seed needs modes 9 / 11 / 13); C20 maps any
+unexpected load failure to a model mismatch instead of crashing.
+'''
+    txt += LIMITS
+    open(os.path.join(V, 'DESIGN.md'), 'w').write(txt)
+
+if __name__ == '__main__': main()
